@@ -76,6 +76,19 @@ func baseKind(v ssa.Value, region map[*ssa.BasicBlock]bool) int {
 }
 
 func (ws *writeSummary) write(fam string, base ssa.Value, region map[*ssa.BasicBlock]bool) {
+	// the backing array of append(s, ...) is that of s or a fresh one
+	if call, ok := base.(*ssa.Call); ok {
+		if b, ok := call.Call.Value.(*ssa.Builtin); ok && b.Name() == "append" && len(call.Call.Args) > 0 {
+			ws.get(fam).freshOnly = true
+			ws.write(fam, call.Call.Args[0], region)
+			return
+		}
+	}
+	if sl, ok := base.(*ssa.Slice); ok {
+		// a sub-slice shares the backing array of what it slices
+		ws.write(fam, sl.X, region)
+		return
+	}
 	if region == nil {
 		// summary of a whole function: stores into its own non-escaping locals are
 		// invisible to every caller
@@ -302,7 +315,7 @@ func (c *Ctx) summarizeStatic(ws *writeSummary, f *ssa.Function, call *ssa.CallC
 		return
 	}
 	if ct := c.Contracts[key]; ct != nil && (ct.HasModifies || len(f.Blocks) == 0) {
-		c.summarizeContract(ws, ct)
+		c.summarizeContractAt(ws, ct, f, call, region)
 		return
 	}
 	if len(f.Blocks) == 0 {
@@ -541,4 +554,52 @@ func (c *Ctx) summarizeTypeItem(ws *writeSummary, m string) {
 		return
 	}
 	ws.top = true
+}
+
+// summarizeContractAt translates a modifies clause at a call site: items that name a
+// parameter of the callee are mapped to the corresponding argument of the call.
+func (c *Ctx) summarizeContractAt(ws *writeSummary, ct *Contract, f *ssa.Function, call *ssa.CallCommon, region map[*ssa.BasicBlock]bool) {
+	if !ct.HasModifies || f == nil || len(f.Params) != len(call.Args) {
+		c.summarizeContract(ws, ct)
+		return
+	}
+	argOf := func(name string) ssa.Value {
+		for i, p := range f.Params {
+			if p.Name() == name {
+				return call.Args[i]
+			}
+		}
+		return nil
+	}
+	for _, m := range ct.Modifies {
+		kind, rest := splitWord(m)
+		switch kind {
+		case "slice":
+			if a := argOf(rest); a != nil {
+				if sl, ok := a.Type().Underlying().(*types.Slice); ok {
+					fam, _ := c.famElem(sl.Elem())
+					ws.write(fam, a, region)
+					continue
+				}
+			}
+		case "map":
+			if a := argOf(rest); a != nil {
+				if mt, ok := a.Type().Underlying().(*types.Map); ok {
+					d, _ := c.famMapDom(mt)
+					v, _ := c.famMapVal(mt)
+					ws.write(d, a, region)
+					ws.write(v, a, region)
+					ws.write(famMapLen, a, region)
+					continue
+				}
+			}
+		case "fam":
+			ws.all(strings.TrimSpace(rest))
+			continue
+		case "fields", "elems":
+			c.summarizeTypeItem(ws, m)
+			continue
+		}
+		ws.top = true
+	}
 }
